@@ -18,6 +18,13 @@ from .state import PathEnd, PyRaise
 from .modular import run_loop, apply_contract, call_spec, merge_if, eval_old, OLD, SPECIAL_NAMES, finish_pending  # noqa
 
 
+class SymText:
+    """text built by formatting symbolic values (exception messages); opaque: only passed around, never inspected"""
+
+    def __repr__(self):
+        return "<text with symbolic parts>"
+
+
 class ExcValue:
     def __init__(self, cls, args):
         self.cls, self.args = cls, tuple(args)
@@ -74,8 +81,10 @@ def binop(ip, op, a, b):
         if op is ast.Mult and isinstance(a, tuple) and isinstance(b, int):
             return a * b
         if op is ast.Mod and isinstance(a, str):
-            raise Unsupported("string formatting with symbolic value")
+            return SymText()
         raise Unsupported("binop on tuple")
+    if op is ast.Mod and isinstance(a, str) and not isinstance(b, Loc):
+        return SymText()
     ka, kb = kind_of(a), kind_of(b)
     if ka is None or kb is None:
         if isinstance(a, ExcValue) or isinstance(b, ExcValue):
@@ -568,6 +577,12 @@ def index(ip, v, i):
 
 def _native_dict_sym_get(ip, d, key):
     st = ip.st
+    if isinstance(key, SV) and key.kind == 'int' and not st.merge and len(d) > 4:
+        uv = st.unique_value(key.e)
+        if uv is not None:
+            if uv in d:
+                return d[uv]
+            ip.raise_(KeyError, uv)
     for k in d:
         r = equal(ip, key, k)
         if isinstance(r, bool):
@@ -577,6 +592,34 @@ def _native_dict_sym_get(ip, d, key):
         if st.branch(r.e, "key == %r" % (k,)):
             return d[k]
     ip.raise_(KeyError, "symbolic key")
+
+
+def native_dict_get(ip, d, key, default):
+    """dict.get on a module-level (native, read-only) dict with a symbolic key"""
+    st = ip.st
+    if isinstance(key, SV) and key.kind == 'int' and not st.merge and len(d) > 4:
+        uv = st.unique_value(key.e)
+        if uv is not None:
+            return d.get(uv, default)
+    if st.merge:
+        res = default
+        for k in reversed(list(d)):
+            r = equal(ip, key, k)
+            if isinstance(r, bool):
+                if r:
+                    res = d[k]
+                continue
+            res = ite(ip, r.e, d[k], res)
+        return res
+    for k in d:
+        r = equal(ip, key, k)
+        if isinstance(r, bool):
+            if r:
+                return d[k]
+            continue
+        if st.branch(r.e, "key == %r" % (k,)):
+            return d[k]
+    return default
 
 
 def _dict_sym_get(ip, c, key, default, raise_missing):
